@@ -219,7 +219,15 @@ func evaluator(m regexp2.Match) string {
 }
 
 // Exec performs the call on re and returns its canonical result.
-func Exec(re *regexp2.Regexp, st Step) string {
+func Exec(re *regexp2.Regexp, st Step) (res string) {
+	// a panic of the code under test (stale state read through a recycled runner, an index out of range) is a
+	// result like any other: it differs from what the sequential reference returned and is reported with the
+	// call sequence that led to it, instead of killing the harness
+	defer func() {
+		if r := recover(); r != nil {
+			res = fmt.Sprintf("panic: %v", r)
+		}
+	}()
 	s := st.In.String()
 	count, n, startAt := st.Count, st.N, st.StartAt
 	if count == 0 {
